@@ -250,6 +250,15 @@ def check_trace(ctx, f, evs, res, exp, init_sums, final_sums, n_files, tag, faul
         ta = [e for k, e in seq if k == "tag"][0]["argv"]
         if vers[1] not in ta:
             problems.append(("tag_name_wrong", f"{ta}"))
+        # an empty configured tag message means a lightweight tag (no message argument at all); otherwise the
+        # message is the rendered template, as one argument
+        if not f["tagmsg"]:
+            if "--message" in ta or "--annotate" in ta or len(ta) != 2:
+                problems.append(("empty_tag_message_not_lightweight", f"{ta}"))
+        elif vers[1] is not None:
+            want = f"release {vers[1]}"
+            if "--message" not in ta or ta[ta.index("--message") + 1] != want:
+                problems.append(("tag_message_wrong", f"{ta}, expected message {want!r}"))
     if eff is None:
         non_probe = [e for e in evs if not (e["argv"] and e["argv"][0] in ("rev-parse", "root"))]
         if non_probe:
